@@ -98,6 +98,8 @@ type lexer struct {
 	prevCol   int
 	pos       ast.Pos
 	last      atomic.Value
+	emitted   bool
+	lead      bool
 }
 
 func newLexer(env *interp.ExecEnv, name string, r io.RuneScanner) *lexer {
@@ -148,7 +150,9 @@ func (l *lexer) run() {
 }
 
 func (l *lexer) lexPipeline() action {
+	l.lead = !l.emitted
 	tok := l.scanRawToken()
+	l.lead = false
 	if l.tr(tok) == Bang {
 		l.emit(Bang)
 		tok = l.scanRawToken()
@@ -979,13 +983,38 @@ func (l *lexer) scanRawToken() int {
 			return int(r)
 		case '#':
 			// comment
-			l.unread()
 			if l.lit(); len(l.word) != 0 {
+				l.unread()
 				return WORD
 			}
-			if !l.linebreak() {
-				return -1
+			if l.lead {
+				// leading comments and the blank lines after them
+				l.unread()
+				if !l.linebreak() {
+					return -1
+				}
+				break
 			}
+			// up to but not including <newline>
+			l.mark(-1)
+		Comment:
+			for {
+				r, err := l.read()
+				switch {
+				case err != nil:
+					l.comment()
+					if err == io.EOF {
+						return 0
+					}
+					return -1
+				case r == '\n':
+					l.unread()
+					break Comment
+				}
+				l.b.WriteRune(r)
+			}
+			l.comment()
+			l.mark(0)
 		default:
 			l.b.WriteRune(r)
 		}
@@ -1643,6 +1672,7 @@ func (l *lexer) emit(typ int) {
 		}
 	}
 	l.word = nil
+	l.emitted = true
 	select {
 	case l.token <- tok:
 	case <-l.cancel:
